@@ -8,6 +8,9 @@
  D3 DETOAST-ON-READ    every query path that can return table rows with large values reaches detoast_rows (REACH).
  D4 COLUMN-DISPATCH    OwnedValue::from_record_column has a reader arm for every DataType variant that OwnedValue's record
                        builder has a writer arm for (no type silently falls into the default arm).
+ D5 NUMERIC-SETTER     RecordBuilder::set_int_auto (the writer used for integer values) selects, for every numeric column type
+                       (INT2/4/8, FLOAT4/8), a setter whose element type is the type the column's reader decodes: an integer
+                       stored with the 8-byte integer setter into a FLOAT column is read back as the float with those bits.
 NaN/infinity, multi-megabyte values, literal parsing and equality of values are NOT decided.
 """
 from model import CheckError, operand_place
@@ -95,3 +98,47 @@ def run(ctx):
             ctx.stat("D4.reader_arms", len(arms))
             missing = sorted(allv - set(arms))
             ctx.ob("D4.COLUMN-DISPATCH", "from_record_column", len(arms) >= len(allv) - 4, "%d of %d DataType variants have their own reader arm (default arm: %s)" % (len(arms), len(allv), missing), rd[0].loc())
+
+    # D5
+    sa = [g for g in m.fns.values() if g.id.endswith("RecordBuilder::<'a>::set_int_auto")]
+    if len(sa) != 1 or len(rd) != 1:
+        raise CheckError("set_int_auto / from_record_column anchors")
+    sa = sa[0]
+
+    def elem_type(fn_suffix, kind):
+        for g in m.fns.values():
+            if g.id.endswith(fn_suffix) and g.kind != "closure":
+                tys = [codec.int_conv(c) for c in g.calls]
+                tys = [t[1] for t in tys if t and t[0] == kind]
+                if tys:
+                    return tys[0]
+                # one level of delegation (get_x_opt -> get_x)
+                for c in g.calls:
+                    h = m.fns.get(c.name)
+                    if h is not None and ("RecordView" in h.id or "RecordBuilder" in h.id):
+                        t2 = [codec.int_conv(x) for x in h.calls]
+                        t2 = [t[1] for t in t2 if t and t[0] == kind]
+                        if t2:
+                            return t2[0]
+        return None
+    wsw = codec.enum_switches(sa, "types::data_type::DataType", m)
+    rsw = codec.enum_switches(rd[0], "types::data_type::DataType", m)
+    if not wsw or not rsw:
+        raise CheckError("DataType dispatch in set_int_auto/from_record_column not found")
+    _, warms, wother = max(wsw, key=lambda x: len(x[1]))
+    _, rarms, _ = max(rsw, key=lambda x: len(x[1]))
+    n5 = 0
+    for T in ("Int2", "Int4", "Int8", "Float4", "Float8"):
+        wt = warms.get(T, wother)
+        wreg = set(codec.dominated(sa, wt))
+        setters = [c.name for c in sa.calls if c.bb in wreg and "RecordBuilder" in c.name and c.name.rsplit("::", 1)[-1].startswith("set_")]
+        rreg = set(codec.dominated(rd[0], rarms[T])) if T in rarms else set()
+        getters = [c.name for c in rd[0].calls if c.bb in rreg and "RecordView" in c.name and c.name.rsplit("::", 1)[-1].startswith("get_")]
+        wty = elem_type(setters[0].split("records::builder::")[-1], "w") if setters else None
+        rty = elem_type(getters[0].split("records::view::")[-1], "r") if getters else None
+        n5 += 1
+        ok = wty is not None and wty == rty
+        ctx.ob("D5.NUMERIC-SETTER", T, ok, "integer values for %s columns are written as %s and read as %s" % (T, wty, rty) if ok else
+               "an integer value for a %s column is written with %s (%s) but the column is read with %s (%s): the value comes back as a "
+               "different number" % (T, setters[0].rsplit("::", 1)[-1] if setters else "?", wty, getters[0].rsplit("::", 1)[-1] if getters else "?", rty), sa.loc())
+    ctx.floor("D5.numeric_types", n5, 5)
